@@ -12,7 +12,7 @@ if ! (cd "$s" && git apply --unsafe-paths -p1 --directory "$s/repo" "$p") 2>"$s/
   patch -p1 -s -d "$s/repo" -i "$p" >/dev/null 2>&1 || { echo "$name: patch does not apply: $(head -1 $s/apply.err)"; exit 3; }
 fi
 mkdir -p "$s/out"
-/verif/bin/govc check -repo "$s/repo" -verif /verif -prop "$prop" -tier quick -out "$s/out" > "$s/log" 2>&1
+${GOVC:-/verif/bin/govc} check -repo "$s/repo" -verif /verif -prop "$prop" -tier quick -out "$s/out" > "$s/log" 2>&1
 rc=$?
 echo "$name [$prop] rc=$rc: $(grep -c '^VIOLATION' $s/log) violations: $(grep '^VIOLATION' $s/log | sed 's/.*obligation=//;s/ status=.*//' | head -10 | tr '\n' ' ')"
 tail -1 "$s/log"
